@@ -4,6 +4,9 @@
 -/
 import BlocV.Proto
 import BlocV.Model.Typing
+-- BEGIN GENOPS
+import BlocV.Model.GenEval
+-- END GENOPS
 import BlocV.Model.Builtins
 import BlocV.Model.Fmt
 import BlocV.SExp
@@ -191,6 +194,36 @@ def handle (words : List String) : String :=
   | ["tok", reader] => handleTok "" reader
   | ["lexrules"] => "rules=" ++ ",".intercalate (Lex.ruleSources.map fun r => hexOfBytes r.toUTF8.toList)
   -- END C13
+  -- BEGIN GENOPS
+  | ["gop", name, v1, v2, st1, st2] =>
+    -- what the REGENERATED tables (Gen/OpTypes.lean via Model/GenEval.lean) say about a binary node: acceptance by the
+    -- production, static type, kind of run-time outcome (val | inv | acc | null); hacc / hty = the same two static facts from the
+    -- hand-written model (Typing.acceptBin / typeBin), equal to the former by Proofs/C02G as long as that module checks
+    match binOpOfName name, parseVal v1, parseVal v2, parseTyStr st1, parseTyStr st2 with
+    | some op, some a, some b, some t1, some t2 =>
+      "model=gen accept=" ++ (if GenEval.acceptBin op t1 t2 then "ok" else "perr") ++ " ty=" ++ tyStrSimple (GenEval.typeBin op t1 t2)
+        ++ " rt=" ++ GenEval.predictBin op a b
+        ++ " hacc=" ++ (if acceptBin op t1 t2 then "ok" else "perr") ++ " hty=" ++ tyStrSimple (typeBin op t1 t2)
+    | _, _, _, _, _ => "bad-op"
+  | ["gun", name, v1, st1] =>
+    match unOpOfName name, parseVal v1, parseTyStr st1 with
+    | some op, some a, some t1 =>
+      "model=gen accept=" ++ (if GenEval.acceptUn op t1 then "ok" else "perr") ++ " ty=" ++ tyStrSimple (GenEval.typeUn op t1)
+        ++ " rt=" ++ GenEval.predictUn op a
+        ++ " hacc=" ++ (if acceptUn op t1 then "ok" else "perr") ++ " hty=" ++ tyStrSimple (typeUn op t1)
+    | _, _, _ => "bad-op"
+  | ["gmemb", name, st] =>
+    -- receiver side of a member method's parse(), from the regenerated Gen/MemberSigs.lean
+    match Member.ofName name, parseTyStr st with
+    | some mb, some t =>
+      -- hrecv: the hand model (Members.acceptMember) on the argument types the family writes (integers, resp. the receiver itself)
+      let args : List Ty := match mb with
+        | .count => [] | .at => [Ty.int] | .delete => [Ty.int] | .put => [Ty.int, Ty.int] | .insert => [Ty.int, t] | .concat => [t]
+      "model=gen recv=" ++ (if GenEval.recvOk mb t then "ok" else "notimpl") ++ " disp=" ++
+        (match memberDispatch t with | none => "ok" | some c => toString c) ++ " hrecv=" ++
+        (if acceptMember mb t args false == some Gen.EXC_PARSE_MEMB_NOT_IMPL_S then "notimpl" else "ok")
+    | _, _ => "bad-op"
+  -- END GENOPS
   | ["op", name, v1, v2, st1, st2] =>
     -- static operand types given explicitly (they differ from the value types for declared function results)
     match binOpOfName name, parseVal v1, parseVal v2, parseTyStr st1, parseTyStr st2 with
